@@ -205,6 +205,9 @@ func cmdCheck(args []string) int {
 		if st.Inconclusive > 0 {
 			broken = append(broken, fmt.Sprintf("%s: %d inconclusive solver answers (%v)", h.Func, st.Inconclusive, st.SolverErrs))
 		}
+		for g := range st.UninitReads {
+			broken = append(broken, fmt.Sprintf("%s: global %s of an init-skipped package was touched but its initialiser was not run (would read as zero)", h.Func, g))
+		}
 		if st.PathLimitHit {
 			broken = append(broken, fmt.Sprintf("%s: path limit or time budget hit before the bound was exhausted", h.Func))
 		}
